@@ -274,3 +274,132 @@ Qed.
 
 Theorem model_flow_outputs_use_flow_layout_proof : model_flow_outputs_use_flow_layout.
 Proof. intros E nm U P g opts compact. reflexivity. Qed.
+
+(* ---------- the helpers as pure functions of arbitrary dictionaries, and to_function itself ---------- *)
+Section Generic.
+Context {E T : Type}.
+Variable ename : E -> string.
+
+Definition Hi (el : E) (kv : string * list T) : list (string * list T) := [((fst kv ++ "_" ++ ename el)%string, snd kv)].
+Definition Ho (it : E * list (string * list T)) : list (string * list T) := flat_map (Hi (fst it)) (snd it).
+Lemma Ho_lay0 x : flat_map Ho x = lay0_in ename x.
+Proof. unfold lay0_in. apply flat_map_ext'. intros it. unfold Ho, Hi. apply flat_map_single. Qed.
+
+Definition Ji (el : E) (kv : string * list T) : list (string * list T) := [((fst kv ++ "_" ++ ename el ++ "+")%string, snd kv)].
+Definition Jo (it : E * list (string * list T)) : list (string * list T) := flat_map (Ji (fst it)) (snd it).
+Lemma Jo_lay0 x : flat_map Jo x = lay0_out ename x.
+Proof. unfold lay0_out. apply flat_map_ext'. intros it. unfold Jo, Ji. apply flat_map_single. Qed.
+Definition plus' (kv : string * list T) : string * list T := ((fst kv ++ "+")%string, snd kv).
+Lemma kv_out_eq (x : list (E * list (string * list T))) : flat_map (fun vars => map plus' vars) (map snd x) = kv_out x.
+Proof. unfold kv_out. rewrite flat_map_map'. reflexivity. Qed.
+
+Lemma gather_inputs_generic x u d c :
+  gen_gather_inputs ename (@List.concat T) x u d c
+  = (map fst (lay_inputs ename x u d c), map snd (lay_inputs ename x u d c)).
+Proof.
+  unfold gen_gather_inputs, lay_inputs, zlevel.
+  destruct (c <=? 0)%Z eqn:E0.
+  - cbv zeta.
+    rewrite (fold_pairs Ho) by (intros n a [el vars]; cbv beta iota;
+      rewrite (fold_pairs (Hi el)) by (intros n' a' [vn v]; reflexivity); reflexivity).
+    cbv beta iota.
+    rewrite (fold_pairs Ho) by (intros n a [el vars]; cbv beta iota;
+      rewrite (fold_pairs (Hi el)) by (intros n' a' [vn v]; reflexivity); reflexivity).
+    cbv beta iota.
+    rewrite (fold_pairs Ho) by (intros n a [el vars]; cbv beta iota;
+      rewrite (fold_pairs (Hi el)) by (intros n' a' [vn v]; reflexivity); reflexivity).
+    cbv beta iota. cbn [app]. rewrite <- !map_app, !Ho_lay0, <- app_assoc. reflexivity.
+  - cbv zeta. group_loops (@snd E (list (string * list T))). fold (kv_in x) (kv_in u) (kv_in d).
+    destruct (c =? 1)%Z eqn:E1; cbv zeta.
+    + rewrite <- !map_app. reflexivity.
+    + reflexivity.
+Qed.
+
+Lemma add_parameters_generic n a (ps : list (string * list T)) c :
+  gen_add_parameters_to_inputs (@List.concat T) n a ps c
+  = (n ++ map fst (if (c <=? 0)%Z then ps else [("p"%string, List.concat (map snd ps))]),
+     a ++ map snd (if (c <=? 0)%Z then ps else [("p"%string, List.concat (map snd ps))])).
+Proof. unfold gen_add_parameters_to_inputs. destruct (c <=? 0)%Z; reflexivity. Qed.
+
+Lemma gather_outputs_generic x c :
+  gen_gather_outputs ename (@List.concat T) x c
+  = (map fst (lay_outputs ename x c), map snd (lay_outputs ename x c)).
+Proof.
+  unfold gen_gather_outputs, lay_outputs, zlevel.
+  destruct (c <=? 0)%Z eqn:E0.
+  - cbv zeta.
+    rewrite (fold_pairs Jo) by (intros n a [el vars]; cbv beta iota;
+      rewrite (fold_pairs (Ji el)) by (intros n' a' [vn v]; reflexivity); reflexivity).
+    cbv beta iota. cbn [app]. rewrite Jo_lay0. reflexivity.
+  - cbv zeta. group_loops (fun vars : list (string * list T) => map plus' vars). rewrite kv_out_eq.
+    destruct (c =? 1)%Z eqn:E1; cbv zeta; reflexivity.
+Qed.
+End Generic.
+
+Theorem to_function_layout_is_the_regenerated_code_proof : to_function_layout_is_the_regenerated_code.
+Proof.
+  intros E L O T ename lname oname links origins lf qf x u d nxt c more_out ps.
+  unfold gen_to_function. cbv zeta.
+  assert (Hid : forall l : list (E * list (string * list T)), map (fun '(el, vars) => (el, vars)) l = l).
+  { intros l. induction l as [|[el vars] l IH]; cbn; [reflexivity|rewrite IH; reflexivity]. }
+  rewrite !Hid, gather_inputs_generic.
+  set (P := match ps with Some p_ => p_ | None => [] end).
+  assert (Hin : (if negb (isnil_ P)
+                 then gen_add_parameters_to_inputs (@List.concat T) (map fst (lay_inputs ename x u d c)) (map snd (lay_inputs ename x u d c)) P c
+                 else (map fst (lay_inputs ename x u d c), map snd (lay_inputs ename x u d c)))
+                = (map fst (lay_inputs ename x u d c ++ lay_params P c), map snd (lay_inputs ename x u d c ++ lay_params P c))).
+  { destruct P as [|p P']; cbn [isnil_ negb lay_params].
+    - rewrite app_nil_r. reflexivity.
+    - rewrite add_parameters_generic, !map_app. reflexivity. }
+  rewrite Hin. clear Hin. rewrite gather_outputs_generic.
+  destruct more_out.
+  - (* the flow helper, on the lists gathered so far *)
+    assert (HF : exists names1 args1,
+               gen_add_flows_to_outputs lname oname (@List.concat T) links origins lf qf
+                 (map fst (lay_outputs ename nxt c)) (map snd (lay_outputs ename nxt c)) P c = Some (names1, args1)
+               /\ List.length names1 = List.length args1
+               /\ combine names1 args1 = lay_outputs ename nxt c
+                    ++ flow_layout (zlevel c) (map (fun m => (("q_" ++ lname m)%string, lf m)) links)
+                                              (map (fun o => (("q_o_" ++ oname o)%string, qf o)) origins)).
+    { clear. unfold gen_add_flows_to_outputs, zlevel. cbv zeta.
+      rewrite (fold_pairs (fun m => [(("q_" ++ lname m)%string, lf m)])) by (intros n a m; reflexivity).
+      cbv beta iota.
+      rewrite (fold_pairs (fun o => [(("q_o_" ++ oname o)%string, qf o)])) by (intros n a o; reflexivity).
+      cbv beta iota. cbn [app]. rewrite !flat_map_single.
+      set (ql := map (fun m => (("q_" ++ lname m)%string, lf m)) links).
+      set (qo := map (fun o => (("q_o_" ++ oname o)%string, qf o)) origins).
+      pose proof (len_fst_snd (lay_outputs ename nxt c)) as Hlen.
+      destruct (0 <? c)%Z eqn:E0.
+      - assert (Hle : (c <=? 0)%Z = false) by lia. rewrite Hle.
+        destruct (1 <? c)%Z eqn:E1.
+        + assert (H1 : (c =? 1)%Z = false) by lia. rewrite H1.
+          eexists _, _. split; [reflexivity|]. split.
+          * rewrite !app_length, Hlen. reflexivity.
+          * rewrite combine_app_eq by exact Hlen. rewrite combine_fst_snd. cbn. rewrite app_nil_r. reflexivity.
+        + assert (H1 : (c =? 1)%Z = true) by lia. rewrite H1.
+          eexists _, _. split; [reflexivity|]. split.
+          * rewrite !app_length, Hlen. reflexivity.
+          * rewrite combine_app_eq by exact Hlen. rewrite combine_fst_snd. reflexivity.
+      - assert (Hle : (c <=? 0)%Z = true) by lia. rewrite Hle.
+        assert (E1 : (1 <? c)%Z = false) by lia. rewrite E1.
+        eexists _, _. split; [reflexivity|]. split.
+        + rewrite !app_length, Hlen, !map_length. reflexivity.
+        + rewrite combine_app_eq by exact Hlen. rewrite <- !map_app, !combine_fst_snd. reflexivity. }
+    destruct HF as (n1 & a1 & HF & _ & HC). rewrite HF, HC, combine_fst_snd. reflexivity.
+  - rewrite !combine_fst_snd, app_nil_r. reflexivity.
+Qed.
+
+Theorem model_layouts_are_the_generic_ones_proof : model_layouts_are_the_generic_ones.
+Proof.
+  split.
+  - intros nm U g c ps.
+    pose proof (inputs_layout_is_the_regenerated_code_proof nm U g c ps) as H.
+    rewrite gather_inputs_generic in H.
+    destruct ps as [|p ps].
+    + destruct H as [H _]. rewrite combine_fst_snd in H. cbn [map lay_params]. rewrite app_nil_r. exact H.
+    + rewrite add_parameters_generic in H. destruct H as [H _].
+      rewrite <- !map_app, combine_fst_snd in H. exact H.
+  - intros A nm out c.
+    pose proof (outputs_layout_is_the_regenerated_code_proof A nm out c) as H.
+    rewrite gather_outputs_generic in H. destruct H as [H _]. rewrite combine_fst_snd in H. exact H.
+Qed.
